@@ -26,11 +26,12 @@ structure PD (S K : Type) where
 
 def PD.plain (pd : PD S K) : List (List (Node S)) := pd.layers.map (·.2)
 
-/-- `_move_to_next_layer` + expansion -/
-def stepLayerP (cfg : Cfg S K) (pd : PD S K) (var : Nat) : Option (PD S K) :=
+/-- `_move_to_next_layer`: the layer of impacted pool nodes, filtered and squashed;
+    `(layer, positions to expand, store, ndom, isExactField, log)`; `none` = the Rust code panics -/
+def prepLayerP (cfg : Cfg S K) (pd : PD S K) (var : Nat) :
+    Option (List (Node S) × List Nat × DomStore S K × Nat × Bool × List (Call S)) :=
   let log := pd.pool.foldl (fun lg n => Call.impacted var n.state :: lg) pd.log
   let curNodes := (pd.pool.filter (fun n => cfg.P.impacted var n.state)).map (fun n => { n with depth := pd.depth })
-  let rest := pd.pool.filter (fun n => !cfg.P.impacted var n.state)
   let layer := curNodes
   let cur := List.range layer.length
   let (layer, cur) := if pd.layers.isEmpty then (layer, cur) else filterCache cfg pd.cache layer cur
@@ -46,10 +47,18 @@ def stepLayerP (cfg : Cfg S K) (pd : PD S K) (var : Nat) : Option (PD S K) :=
     if needRestrict then let (l, c) := restrictLayer cfg layer cur; (l, c, log)
     else if needRelax then relaxLayer cfg pd.plain layer cur log
     else (layer, cur, log)
-  let lidx := pd.layers.length
-  let (layer, pool, log) := cur.foldl (expandOne cfg var lidx) (layer, rest, log)
-  let layers := if layer.isEmpty then pd.layers else pd.layers ++ [(pd.depth, layer)]
-  some { pd with layers := layers, pool := pool, depth := pd.depth + 1, isExactField := isExactField, store := store, log := log, ndom := ndom }
+  some (layer, cur, store, ndom, isExactField, log)
+
+/-- `_move_to_next_layer` + expansion: the children go into the pool, next to the nodes that were skipped -/
+def stepLayerP (cfg : Cfg S K) (pd : PD S K) (var : Nat) : Option (PD S K) :=
+  match prepLayerP cfg pd var with
+  | none => none
+  | some (layer, cur, store, ndom, isExactField, log) =>
+    let rest := pd.pool.filter (fun n => !cfg.P.impacted var n.state)
+    let lidx := pd.layers.length
+    let r := cur.foldl (expandOne cfg var lidx) (layer, rest, log)
+    let layers := if r.1.isEmpty then pd.layers else pd.layers ++ [(pd.depth, r.1)]
+    some { pd with layers := layers, pool := r.2.1, depth := pd.depth + 1, isExactField := isExactField, store := store, log := r.2.2, ndom := ndom }
 
 def buildLoopP (cfg : Cfg S K) (stopAt : Option Nat) : Nat → PD S K → PD S K × Outcome
   | 0, pd => (pd, .crash)
